@@ -64,7 +64,9 @@ def sweep_cases(rng, tmpdir):
     npd = lambda par, row: ('#NPD\n#:version 1.0\n#:ports 1\n#:frequencies 1\n#:parameters %s\n#:z0 50 0j\n%s\n' % (par, row)).encode()
     files = [('x.npd', npd('Qri', '1e9 0.25 0.5')), ('x.npd', npd('Sri,Zindb', '1e9 0.25 0.5 1 2')), ('x.npd', npd('Sri', '1e9 bogus 0.5')), ('x.npd', npd('Sri', '1e9 0.25')),
              ('x.npd', b'#NPD\n#:version 9.0\n'), ('x.s1p', b'# HZ Q RI R 50\n1e9 1 2\n'), ('x.s1p', b'# HZ S RI R 50\n1e9 1\n'),
-             ('x.ts', b'[Version] 2.0\n# HZ S RI R 50\n[Number of Ports] 1\n[Number of Frequencies] 2\n[Network Data]\n1e9 1 2\n[End]\n')]
+             ('x.ts', b'[Version] 2.0\n# HZ S RI R 50\n[Number of Ports] 1\n[Number of Frequencies] 2\n[Network Data]\n1e9 1 2\n[End]\n'),
+             ('x.ts', b'[Version] 2.0\n# HZ S RI R 50\n[Number of Ports] 1\n[Bogus] 1\n[Number of Frequencies] 1\n[Network Data]\n1e9 1 2\n[End]\n'),
+             ('x.ts', b'[Version] 2.0\n# HZ S RI R 50\n[Number of Ports] 1\n[Number of Frequencies] 1\n[Network Data]\n1e9 1 2\n[Nonsense]\n')]
     bf = []
     for name_, data_ in files:
         bf.append(('vd 0 loadstr %s x%s' % (h(name_), data_.hex()), ('EBADMSG', 'ENOPROTOOPT'), False))
